@@ -172,6 +172,13 @@ Inductive op :=
 | OBegin (t : nat) (h : option Z) (p : payload)  (* Bootstrap whose transaction is parked *)
 | OFinish (t : nat) (o : outcome)             (* release it with this storage outcome; includes the winner's start *)
 | OFinishStartFail (t : nat)                  (* release it (Ok); if it wins, its cluster.Start fails on a storage error *)
+| OCommit (t : nat)                           (* the parked transaction is sent and decided by etcd (LTxn t Ok); if it wins, etcd's
+                                                 answer is held on its way back: the request stays between LTxn and LStart
+                                                 (OFinish t then lets it go on); if it loses it is answered at once *)
+| OFinishSlow (t : nat) (ms : Z)              (* release it; etcd takes ms milliseconds over the transaction and applies it then,
+                                                 whether or not the caller still waits. Below request_timeout_ms this is the
+                                                 Ok outcome: the request waits for etcd's answer *)
+| OServed                                     (* the ids of the regions the leader's running raft cluster serves *)
 | OIsBoot
 | OReload
 | OStop
@@ -190,6 +197,7 @@ Inductive obs :=
 | BId (k : nat)            (* cluster id, renamed by order of first appearance *)
 | BAccepted | BNotBoot | BBad
 | BStream (answers : list obs)
+| BRegions (l : list Z)
 | BCfg (own_id : bool) (max_peers : Z).   (* the cluster meta served: does it carry the cluster's id; its max_peer_count *)   (* per message of a stream, until the handler returned *)
 
 (* what the driver reads from etcd after every operation *)
@@ -256,6 +264,21 @@ Definition boot_finish (s : state) (t : nat) (o : outcome) : option (state * obs
                   end
           | _ => Some (s1, BEtcdErr)
           end
+      end
+  | Some (PWon _ _) =>                      (* its transaction was decided by OCommit: the held answer arrives *)
+      match step s (LStart t) with Some s2 => Some (s2, BOk) | None => None end
+  | _ => None
+  end.
+
+(* how long a bootstrap transaction waits for etcd (kv.requestTimeout, pinned by request_timeout_matches_code) *)
+Definition request_timeout_ms : Z := 10000.
+
+Definition boot_commit (s : state) (t : nat) : option (state * obs) :=
+  match thr s t with
+  | Some (PAfterRc _ _) =>
+      match step s (LTxn t Ok) with
+      | None => None
+      | Some s1 => Some (s1, match thr s1 t with Some (PWon _ _) => BStarted | _ => BConflict end)
       end
   | _ => None
   end.
@@ -325,6 +348,11 @@ Definition run_op1 (r : rstate) (o : op) : rstate * obs :=
       end
   | OFinish t oc => lift r (boot_finish s t oc)
   | OFinishStartFail t => lift r (boot_finish_startfail s t)
+  | OCommit t => lift r (boot_commit s t)
+  | OFinishSlow t ms => lift r (boot_finish s t (if ms <? request_timeout_ms then Ok else ErrApplied))
+  (* a running cluster has loaded its regions from the region storage (at its start, right after the winner saved its
+     region there; or at a reload) *)
+  | OServed => (r, if running s then BRegions (rst r) else BNotBoot)
   | OIsBoot => (r, BBool (running s))
   | OReload => lift r (match step s LReload with Some s1 => Some (s1, BUnit) | None => None end)
   | OStop => lift r (match step s LStop with Some s1 => Some (s1, BUnit) | None => None end)
@@ -388,6 +416,7 @@ Fixpoint obs_eqb (a b : obs) : bool :=
   | BBool x, BBool y => Bool.eqb x y
   | BId x, BId y => Nat.eqb x y
   | BCfg a x, BCfg b y => Bool.eqb a b && (x =? y)
+  | BRegions x, BRegions y => list_eqb Z.eqb x y
   | BStream x, BStream y =>
       (fix go (l1 l2 : list obs) : bool :=
          match l1, l2 with
@@ -444,12 +473,14 @@ Fixpoint mon (must_run : bool) (prev : view) (oks : list payload) (pend : list (
   | o :: r, (b, v) :: br =>
       let pend1 := match o, b with
                    | OBegin t _ p, BStarted => (t, p) :: pend
-                   | OFinish t _, _ | OFinishStartFail t, _ => filter (fun x => negb (Nat.eqb (fst x) t)) pend
+                   | OFinish t _, _ | OFinishStartFail t, _ | OFinishSlow t _, _ => filter (fun x => negb (Nat.eqb (fst x) t)) pend
+                   | OCommit t, BStarted => pend
+                   | OCommit t, _ => filter (fun x => negb (Nat.eqb (fst x) t)) pend
                    | _, _ => pend
                    end in
       let won := match o, b with
                  | OBoot _ _ p, BOk => Some p
-                 | OFinish t _, BOk => match find (fun x => Nat.eqb (fst x) t) pend with Some x => Some (snd x) | None => None end
+                 | OFinish t _, BOk | OFinishSlow t _, BOk => match find (fun x => Nat.eqb (fst x) t) pend with Some x => Some (snd x) | None => None end
                  | _, _ => None
                  end in
       let oks1 := match won with Some p => p :: oks | None => oks end in
@@ -480,6 +511,22 @@ Fixpoint mon (must_run : bool) (prev : view) (oks : list payload) (pend : list (
               end then Some "C20:stored-records-not-from-the-acknowledged-request"
       else if (1 <? Z.of_nat (List.length (v_stores v)))%Z || (1 <? Z.of_nat (List.length (v_regions v)))%Z
       then Some "C20:stored-records-from-several-requests"
+      (* 2a. the leader serves what the acknowledged request bootstrapped: its first region; and a raft cluster only runs
+             after an acknowledged bootstrap or a reload that found the record - a refused request never starts it *)
+      else if match o, b, oks1 with
+              | OServed, BRegions l, [p] => negb (existsb (Z.eqb (region_of p)) l)
+              | _, _, _ => false
+              end then Some "C20:acknowledged-bootstrap-region-not-served"
+      else if match o, b with
+              | OServed, BRegions _ | OIsBoot, BBool true => negb must_run
+              | _, _ => false
+              end then Some "C20:raft-cluster-running-without-acknowledged-bootstrap"
+      (* 2a'. a request whose transaction etcd commits within the time a request waits for it is answered by the
+              transaction's outcome, not with a storage error *)
+      else if match o, b with
+              | OFinishSlow _ ms, BEtcdErr => (ms <? request_timeout_ms)%Z
+              | _, _ => false
+              end then Some "C20:bootstrap-gave-up-on-a-transaction-etcd-was-committing"
       (* 2b. the region storage (what a restart loads) only holds the region of the stored record: never the region of a
              request that was refused *)
       else if negb (forallb (fun x => existsb (Z.eqb x) (v_regions v)) (v_rstore v))
